@@ -123,7 +123,7 @@ Section MD32.
     pose proof (c32_update_inv _ _ (enc_len ((base + 8 * N.of_nat (length m)) mod M64)) H1) as H2.
     destruct H2 as (HI & _).
     apply Inv_full in HI.
-    - rewrite HI. f_equal. f_equal. unfold md_pad_from. rewrite <- !app_assoc. reflexivity.
+    - unfold upd_ in *. rewrite HI. f_equal. f_equal. unfold md_pad_from. rewrite <- !app_assoc. reflexivity.
     - rewrite !app_length, Henc_len. cbn [length]. rewrite repeat_length. unfold md_zeros. lia.
   Qed.
 
@@ -156,8 +156,9 @@ Section MD32Final.
     fold_left T bs st = fold_left compress bs st.
   Proof.
     induction bs as [|b bs IH]; intros st Hst Hbs; [reflexivity|].
-    inversion Hbs as [|? ? Hb Hr]; subst. cbn [fold_left].
-    rewrite HT by assumption. apply IH; [apply Hcl; exact Hst | exact Hr].
+    pose proof (Forall_inv Hbs) as Hb. pose proof (Forall_inv_tail Hbs) as Hr.
+    cbn [fold_left]. cbv beta in Hb.
+    rewrite (HT st b Hst Hb). apply IH; [apply Hcl; exact Hst | exact Hr].
   Qed.
 
   Lemma chunks_all64' k : forall l, (64 * k <= length l)%nat -> Forall (fun b => length b = 64%nat) (chunks k l).
@@ -185,7 +186,7 @@ Section MD32Final.
       - exists [], (firstn r (c32_buf c)). rewrite HR. repeat split; auto.
         exists 0%nat. reflexivity.
       - rewrite HR. fold bits. unfold base, r, bits, M32, M64 in *. lia. }
-    pose proof (c32_updates_inv T lo1 _ _ Hbase parts c _ H0) as H1.
+    pose proof (c32_updates_inv T enc_vect enc_len lo1 Henc Henc_len _ _ Hbase parts c _ H0) as H1.
     rewrite (c32_final_digest T enc_vect enc_len iv lo1 Henc Henc_len _ _ Hbase _ _ H1).
     unfold md_resume. fold r. fold base. f_equal.
     apply fold_T_eq; [exact Hst|]. unfold blocks. apply chunks_all64'. lia.
